@@ -398,3 +398,44 @@ def divisors(e):
                 out[b.get_id()] = b
         stack.extend(t.children())
     return list(out.values())
+
+
+def linear_abstract(e, table, cache=None):
+    """replace every maximal non-linear subterm (products of non-constants, divisions by non-constants, anything else that is not
+    linear arithmetic / boolean structure) by a fresh variable (same subterm -> same variable).  The result over-approximates e:
+    if the abstraction is unsatisfiable, so is e."""
+    if cache is None:
+        cache = {}
+    k = e.get_id()
+    if k in cache:
+        return cache[k]
+
+    def opaque(t):
+        key = t.get_id()
+        if key not in table:
+            v = z3.Real('lin!%d' % len(table)) if z3.is_real(t) or z3.is_int(t) else z3.Bool('linb!%d' % len(table))
+            table[key] = (v, t)      # keep t alive: ids are only unique among live terms
+        return table[key][0]
+    if z3.is_rational_value(e) or z3.is_int_value(e) or z3.is_true(e) or z3.is_false(e):
+        r = e
+    elif z3.is_const(e):
+        r = e
+    else:
+        d = e.decl().kind()
+        ch = e.children()
+        if d in (z3.Z3_OP_ADD, z3.Z3_OP_SUB, z3.Z3_OP_UMINUS, z3.Z3_OP_LE, z3.Z3_OP_LT, z3.Z3_OP_GE, z3.Z3_OP_GT, z3.Z3_OP_EQ, z3.Z3_OP_DISTINCT,
+                 z3.Z3_OP_AND, z3.Z3_OP_OR, z3.Z3_OP_NOT, z3.Z3_OP_ITE, z3.Z3_OP_IMPLIES, z3.Z3_OP_XOR, z3.Z3_OP_TO_REAL):
+            r = e.decl()(*[linear_abstract(c, table, cache) for c in ch])
+        elif d == z3.Z3_OP_MUL:
+            consts = [c for c in ch if z3.is_rational_value(c)]
+            rest = [c for c in ch if not z3.is_rational_value(c)]
+            if len(rest) <= 1:
+                r = e.decl()(*[linear_abstract(c, table, cache) for c in ch]) if rest else e
+            else:
+                r = opaque(e)
+        elif d == z3.Z3_OP_DIV and z3.is_rational_value(ch[1]):
+            r = linear_abstract(ch[0], table, cache) / ch[1]
+        else:
+            r = opaque(e)
+    cache[k] = r
+    return r
